@@ -44,6 +44,9 @@ class WindowsApiEmitter(EventEmitter):
         super().__init__(event_queue, watch, timeout=timeout, event_filter=event_filter)
         self._lock = threading.Lock()
         self._whandle: HANDLE | None = None
+        # The old name of a rename whose new name has not been read yet: the two
+        # records of a rename may arrive in different ReadDirectoryChangesW buffers.
+        self._last_renamed_src_path = ""
 
     def on_thread_start(self) -> None:
         self._whandle = get_directory_handle(self.watch.path)
@@ -69,15 +72,14 @@ class WindowsApiEmitter(EventEmitter):
     def queue_events(self, timeout: float) -> None:
         winapi_events = self._read_events()
         with self._lock:
-            last_renamed_src_path = ""
             for winapi_event in winapi_events:
                 src_path = os.path.join(self.watch.path, winapi_event.src_path)
 
                 if winapi_event.is_renamed_old:
-                    last_renamed_src_path = src_path
+                    self._last_renamed_src_path = src_path
                 elif winapi_event.is_renamed_new:
                     dest_path = src_path
-                    src_path = last_renamed_src_path
+                    src_path = self._last_renamed_src_path
                     if os.path.isdir(dest_path):
                         self.queue_event(DirMovedEvent(src_path, dest_path))
                         if self.watch.is_recursive:
